@@ -3,6 +3,7 @@
 From Coq Require Import List ZArith Reals.
 From Coquelicot Require Import Coquelicot.
 From EPG Require Import Scalar QI Dual State Ops Diff DiffLemmas DiffExact DiffIndep DiffNonvac CInst Transition Evolution CDeriv CoefT CoefE.
+From EPG Require Import DiffPoint Jet RealSeq.
 Import ListNotations.
 
 (* (1) what the bookkeeping computes: a lookup in the new order1 dictionary, for ANY operator
@@ -68,6 +69,60 @@ Proof. exact (R_d_r0_correct rT_re rT_im rL r0). Qed.
 Print Assumptions C02_T_d_alpha.
 Print Assumptions C02_E_d_tau.
 Print Assumptions C02_R_d_r0.
+
+(* (4b) COMPOSITION of (2)/(3) with analysis, as one theorem.
+   Point derivations: the plain simulation runs in a ring K, the bookkeeping in a ring L, ev : K -> L is a
+   ring homomorphism and dv : K -> L a derivation over it; if the arrays over L are the values of the
+   arrays over K and dv of the arrays is the declared combination of derivative arrays (pair_ok), then the
+   Jacobian entry is dv of the plain signal and the signal is ev of the plain signal -- every program. *)
+Theorem C02_jacobian_point (S1 S2 : ScalOps) (L1 : ScalLaws S1) (L2 : ScalLaws S2) (ev dv : S1 -> S2)
+  (ev_0 : ev k0 = k0)
+  (ev_add : forall x y, ev (kadd x y) = kadd (ev x) (ev y))
+  (ev_mul : forall x y, ev (kmul x y) = kmul (ev x) (ev y))
+  (dv_add : forall x y, dv (kadd x y) = kadd (dv x) (dv y))
+  (dv_mul : forall x y, dv (kmul x y) = kadd (kmul (dv x) (ev y)) (kmul (ev x) (dv y)))
+  (v : var) (prog1 : list (op S1)) (prog2 : list (dinstr S2)) (pd : S1) :
+  dv pd = k0 -> Forall2 (pair_ok S1 S2 ev dv v) prog1 prog2 ->
+  let ds := drun prog2 (dinit (init (ev pd))) in
+  jacobian ds [v] = [dv (f0 S1 (run prog1 (init pd)))] /\
+  f0 S2 (d_main ds) = ev (f0 S1 (run prog1 (init pd))).
+Proof. exact (jacobian_point S1 S2 L1 L2 ev dv ev_0 ev_add ev_mul dv_add dv_mul v prog1 prog2 pd). Qed.
+Print Assumptions C02_jacobian_point.
+
+(* a family of programs x |-> prog(x) over C (arrays differentiable at x0), the program of their 1-jets
+   over the dual numbers, and the differentiation program handed to diff.py at x0: the Jacobian entry
+   diff.py returns is the derivative at x0 of x |-> simulated signal (is_derive on re and im) *)
+Theorem C02_jacobian_is_derivative (x0 : R) (v : var) (fprog : list fop) (jprog : list (op DC))
+  (prog2 : list (dinstr Cops)) (pd : C) :
+  Forall2 (is_jet x0) fprog jprog ->
+  Forall2 (pair_ok DC Cops jv jd v) jprog prog2 ->
+  let ds := drun prog2 (dinit (@init Cops pd)) in
+  exists j, jacobian ds [v] = [j] /\
+            derC (fun x => f0 Cops (frun fprog x (@init Cops pd))) x0 j /\
+            f0 Cops (d_main ds) = f0 Cops (frun fprog x0 (@init Cops pd)).
+Proof. exact (jacobian_is_derivative x0 v fprog jprog prog2 pd). Qed.
+Print Assumptions C02_jacobian_is_derivative.
+
+(* END TO END for the real operators (arrays translated from /repo): every sequence of T(c x + b, phi)
+   declared {v: {alpha: c}}, E(tau, T1, c x + b, g) declared {v: {T2: c}}, constant T / E and shifts
+   (with or without nmax): the Jacobian entry of diff.py's bookkeeping at x0 is the derivative at x0 of
+   the simulated signal with respect to x. *)
+Theorem C02_real_sequence_jacobian (x0 : R) (v : var) (items : list ritem) (pd : C) :
+  List.Forall (item_ok x0) items ->
+  let ds := drun (map (dop_of x0 v) items) (dinit (@init Cops pd)) in
+  exists j : C, jacobian ds [v] = [j] /\
+    derC (fun x => f0 Cops (run (map (real_of x) items) (@init Cops pd))) x0 j /\
+    f0 Cops (d_main ds) = f0 Cops (run (map (real_of x0) items) (@init Cops pd)).
+Proof. exact (real_sequence_jacobian x0 v items pd). Qed.
+Print Assumptions C02_real_sequence_jacobian.
+
+(* its side condition is met, e.g. by a B1-like variable scaling two pulses and a T2 variable at 50 ms *)
+Example C02_real_sequence_nonvacuous :
+  List.Forall (item_ok 50%R)
+    [RTv 1 0 30; RS 1 None; REv 8 1000 (1/100) 1 0; RTv 2 0 0; RS (-1) (Some 3%nat); REc 5 1000 50 0].
+Proof.
+  repeat constructor; cbn [item_ok]; try exact I; try (apply Rgt_not_eq; Lra.lra); try Lra.lra.
+Qed.
 
 (* (5) REFUTED clause ("whatever other operators, differentiable or not, occur"): operators applied
    through Operator.__call__ leave the partials untouched; after a spoiler the signal is 0 (so every
